@@ -32,6 +32,7 @@ def plan(tier):
                 qs.append(Q('ctr-step:%s:t%d' % (tag, tl), 'c04.c', 'from any Inv(K, T_old) inside a CTR context: %s_ctr_set_tweak(T_new, %d) establishes Inv(K, T_new || 0..) and discards buffered keystream' % (nm, tl),
                             defs=dict(base, OB_CTR_STEP=1, TLEN=tl), timeout=600))
             qs.append(Q('ctr-null:' + tag, 'c04.c', '%s_ctr_set_tweak(NULL, n) establishes Inv(K, 0)' % nm, defs=dict(base, OB_CTR_NULL=1), timeout=600, sanitize=True))
+    qs += ctr_rekey_queries(tier, ('set_tweaked_key', 'set_tweak'))
     return dict(
         queries=qs, level='model_checking', pre=[pre_model_selftest],
         functions=['skinny{64,128}_set_tweaked_key', 'skinny{64,128}_set_tweak', 'skinny{64,128}_xor_tk1', 'skinny{64,128}_set_key_inner', 'skinny{64,128}_ecb_encrypt/decrypt',
